@@ -177,6 +177,7 @@ extern ssize_t mpt_encode_cobs(MPT_STRUCT(encode_state) *info, const struct iove
 	info->done = left - code;
 	info->scratch = code;
 	
-	/* return consumed size */
-	return base->iov_len - len;
+	/* return consumed size, no progress is missing target space */
+	len = base->iov_len - len;
+	return len ? (ssize_t) len : MPT_ERROR(MissingBuffer);
 }
